@@ -1,4 +1,6 @@
 import GB.C03.ProofsPath
+import GB.C20.BridgeShape
+import GB.C03.ProofsStack
 /-
   C03 — property theorems. Theorems only; helper lemmas live in Proofs*.lean.
   `Tmpl` is the parsed template (`gwbased.Parse`, property C20), `Table` the routing table as a list of
@@ -162,6 +164,49 @@ theorem C03_decode_once_absolute {ι : Type} (tbl : Table ι) (hwf : ∀ e ∈ t
   unfold routeHTTP
   rw [pathChoice_parseRequestURI_abs hsch hr hq hp, C03_route_iff tbl hwf]
 
+/-- Absolute-form targets with ANY authority (userinfo, `[v6]` literals with zones, ports, %-escapes in the host), as
+    `url.ParseRequestURI` treats them: the authority is only a gate — `parseAuthority` (`authorityOk`) decides between
+    a parse error (net/http answers 400 before any routing) and success, and on success `Path`/`RawPath` are `setPath`
+    of the text after the authority, exactly as for an origin-form target with that text. Together with
+    `C03_decode_once_absolute` (whose hypothesis `parseRequestURI raw = some (some u)` no longer excludes any
+    authority): nothing in the authority can change what is routed or captured. -/
+theorem C03_absolute_authority (raw sch rest a : Bytes) (hctl : containsCTL raw = false)
+    (hsch : getScheme true [] raw = some (some (sch, rest))) (hr : beforeQuery rest = 47 :: 47 :: a) :
+    parseRequestURI raw =
+      some (if authorityOk (a.takeWhile (· != 47)) then setPath (a.dropWhile (· != 47)) else none) :=
+  parseRequestURI_abs hctl hsch hr
+
+/-- The plain `host[:port]` authorities (`[A-Za-z0-9.-]*`, optional `:digits`) — all the earlier model covered — are
+    accepted by the full model of `parseAuthority`: the extension is conservative. -/
+theorem C03_simple_authority_ok (a : Bytes) (h : simpleAuth a = true) : authorityOk a = true :=
+  simpleAuth_authorityOk a h
+
+/-- An absolute-form target without a path (`GET http://host HTTP/1.1`) has `Path = ""`: no leading slash, so
+    `RouteHTTP` answers InvalidArgument whatever the table holds. -/
+theorem C03_absolute_no_path {ι : Type} (tbl : List (Route ι)) (m raw sch rest a : Bytes) (u : Url)
+    (hctl : containsCTL raw = false)
+    (hsch : getScheme true [] raw = some (some (sch, rest))) (hr : beforeQuery rest = 47 :: 47 :: a)
+    (hq : a.dropWhile (· != 47) = []) (hp : parseRequestURI raw = some (some u)) :
+    routeHTTP tbl m u = .error .invalidArgument := by
+  rw [parseRequestURI_abs hctl hsch hr, hq] at hp
+  split at hp
+  · simp only [setPath, urlUnescape, escapesOk, urlUnescapeBuild, urlEscape, ↓reduceIte, Option.some.injEq] at hp
+    subst hp
+    simp [routeHTTP, pathChoice_empty, routePath]
+  · cases hp
+
+/-! `http://u:p%40@[fe80::1%25en0]:80/v/a%2Fb?x` parses (userinfo with an escape, IPv6 literal with a zone, port) and
+    keeps `RawPath = /v/a%2Fb`; `%41` in a host, a missing `]`, a non-numeric port, `%zz` in the userinfo are errors. -/
+example : parseRequestURI [104, 116, 116, 112, 58, 47, 47, 117, 58, 112, 37, 52, 48, 64, 91, 102, 101, 56, 48, 58, 58, 49, 37,
+      50, 53, 101, 110, 48, 93, 58, 56, 48, 47, 118, 47, 97, 37, 50, 70, 98, 63, 120] =
+    some (some ⟨[47, 118, 47, 97, 47, 98], [47, 118, 47, 97, 37, 50, 70, 98]⟩) := by decide
+example : parseRequestURI [104, 58, 47, 47, 104, 37, 52, 49, 47, 97] = some none ∧           -- h://h%41/a
+    parseRequestURI [104, 58, 47, 47, 91, 58, 58, 49, 47, 97] = some none ∧                  -- h://[::1/a
+    parseRequestURI [104, 58, 47, 47, 104, 58, 56, 120, 47, 97] = some none ∧                -- h://h:8x/a
+    parseRequestURI [104, 58, 47, 47, 37, 122, 122, 64, 104, 47, 97] = some none ∧           -- h://%zz@h/a
+    parseRequestURI [104, 58, 47, 47, 104, 37, 67, 51, 37, 65, 57, 47, 97] = some (some ⟨[47, 97], []⟩) := by  -- h://h%C3%A9/a
+  decide
+
 /-- net/url's default path escaping is undone by exactly one decoding pass, segment by segment:
     `unescape(escape(s)) = s`, for the matcher's single-segment decoder as well, and `/` is neither escaped nor
     produced by escaping. -/
@@ -273,4 +318,109 @@ example : ∀ e ∈ exTbl, WF e.2.2 := by
 example : routePath (routesOf exTbl) [71, 69, 84]
       [47, 97, 47, 98, 37, 50, 70, 99, 47, 100, 37, 50, 70, 101, 37, 50, 53, 52, 49, 58, 103] =
     .found 1 [([120], [98, 47, 99]), ([121], [100, 37, 50, 70, 101, 37, 52, 49])] := by decide
+end
+
+/-- `Pattern.stacksize` (`maxstack` of `NewPattern`) is only the capacity of `make([]string, 0, p.stacksize)` in
+    `MatchAndEscape` — no result depends on it — and it is a correct upper bound: for EVERY opcode program and pool
+    `NewPattern` accepts (compiled from a template or not), every component list and every initial `captured` array, the
+    op loop instrumented with the largest `stack` length it reaches (`runOpsD`, same result as `runOps`) never exceeds
+    `stacksize`: the slice never re-allocates. -/
+theorem C03_stacksize_bound (version : Nat) (ops : List Nat) (pool : List Bytes) (verb : Bytes) (P : Pattern)
+    (h : newPattern version ops pool verb = some P) (comps captured : List Bytes) :
+    (runOpsD P.pool P.tailLen P.ops comps [] captured).1 = runOps P.pool P.tailLen P.ops comps [] captured ∧
+    (runOpsD P.pool P.tailLen P.ops comps [] captured).2 ≤ P.stacksize :=
+  ⟨runOpsD_fst _ _ _ _ _ _, stacksize_bound h comps captured⟩
+
+/-- the bound is reached (so it is the least one) for `/a/{x=b/*/**}` on `/a/b/c/d/e`: stacksize 4, depth 4 -/
+example : (newPattern 1 (compile ⟨[.plain (.lit [97]), .var [120] [.lit [98], .star, .deep]], []⟩).opcodes
+      (compile ⟨[.plain (.lit [97]), .var [120] [.lit [98], .star, .deep]], []⟩).pool []).map
+      (fun P => (P.stacksize, (runOpsD P.pool P.tailLen P.ops [[97], [98], [99], [100], [101]] [] [[]]).2)) = some (4, 4) := by
+  decide
+
+/-! ## Composition with the parser (property C20's model of `gwbased.Parse`)
+
+  `Tmpl.ShapeOk`, an assumption of `C03_compiled_matcher` so far, is a THEOREM about the parser model: it holds for
+  the output on every byte string the parser accepts (lean/GB/C20/BridgeShape.lean: acceptance ⇒ the segments and
+  verb are those of the grammar's abstract syntax — soundness + completeness + unambiguity — and that syntax has the
+  shape). The parser model has its own AST (`C20.GwTemplate`, field paths as identifier lists, variables may nest
+  syntactically); `C20.toC03` is the conversion and `C20.tmplC03` is the same for the grammar's abstract syntax. -/
+
+/-- **`ShapeOk` and `WF` proved** for everything the parser returns: for every byte string `s` the gwbased parser model
+    accepts, the produced template (converted to C03's AST) has the parser shape, complete percent-escapes in every
+    literal and in the verb (fix D27), and is the grammar's abstract syntax of `s`; with at most one `**` it is `WF`. -/
+theorem C03_parsed_template_wf (s : Bytes) (g : C20.GwTemplate) (h : C20.gwParse s = .ok g) :
+    (C20.toC03 g).ShapeOk ∧ (deepCount (C20.toC03 g).segs ≤ 1 → WF (C20.toC03 g)) ∧
+    ∃ t, C20.DerivesRelaxed s t ∧ C20.toC03 g = C20.tmplC03 t := by
+  obtain ⟨h1, h2, h3⟩ := C20.gwParse_shape s g h
+  obtain ⟨t, hw, hr, hs, hv⟩ := C20.gwParse_full s g h
+  exact ⟨h1, fun hd => ⟨hd, h2, h3⟩, t, ⟨hw, hr⟩, C20.toC03_of t g hs hv⟩
+
+/-- **Parser ∘ compiler ∘ matcher = declarative semantics, no shape hypothesis.** For every template STRING `s` the
+    parser model accepts — `T` is the template it denotes (`tmplC03 t` for the unique `t` with `DerivesRelaxed s t`) —:
+
+    * more than one `**`: `routing.buildPattern` (Parse ▸ Compile ▸ NewPattern) yields no pattern, the binding is skipped;
+    * otherwise it yields a pattern `P` with `P.verb = T.verb`, and
+      - for all components: `MatchAndEscape P comps T.verb = ok b ↔ Matches T comps T.verb b`, any other verb of a
+        template with a verb is not-match, never a fault;
+      - for every request path `/p` and HTTP method `m`: the router holding just this binding (`RouteHTTP`'s per-route
+        verb detection + `MatchAndEscape`) answers `found i b` iff `PathMatches T (splitSlash p) b` — the http.proto
+        semantics on the raw segments with the captured variables decoded exactly once. -/
+theorem C03_parsed_template_matcher (s : Bytes) (g : C20.GwTemplate) (h : C20.gwParse s = .ok g) :
+    ∃ t, C20.DerivesRelaxed s t ∧ C20.toC03 g = C20.tmplC03 t ∧
+      (1 < deepCount (C20.tmplC03 t).segs → C20.buildPatternM s = none) ∧
+      (deepCount (C20.tmplC03 t).segs ≤ 1 → ∃ P, C20.buildPatternM s = some P ∧ P.verb = (C20.tmplC03 t).verb ∧
+        (∀ comps b, matchAndEscape P comps P.verb = .ok b ↔ Matches (C20.tmplC03 t) comps (C20.tmplC03 t).verb b) ∧
+        (∀ comps verb, P.verb ≠ [] → verb ≠ P.verb → matchAndEscape P comps verb = .notMatch) ∧
+        (∀ comps, matchAndEscape P comps P.verb ≠ .fault) ∧
+        (∀ {ι : Type} (i : ι) (m p : Bytes) (b : Captures),
+          routePath [⟨i, m, P.verb, matchAndEscape P⟩] m (47 :: p) = .found i b ↔
+            PathMatches (C20.tmplC03 t) (splitSlash p) b)) := by
+  obtain ⟨hshape, hwf, t, hder, heq⟩ := C03_parsed_template_wf s g h
+  refine ⟨t, hder, heq, ?_, ?_⟩
+  · intro hd
+    simp only [C20.buildPatternM, h]
+    rw [← heq] at hd
+    exact (C03_invalid_pattern _ hshape).2 hd
+  · intro hd
+    rw [← heq] at hd ⊢
+    obtain ⟨P, hP, hverb, hrun⟩ := C03_compiled_matcher _ hshape hd
+    have hP' : C20.buildPatternM s = some P := by simp only [C20.buildPatternM, h]; exact hP
+    refine ⟨P, hP', hverb, ?_, ?_, ?_, ?_⟩
+    · intro comps b; rw [hrun, hverb]; exact C03_matcher _ hd comps b
+    · intro comps verb h1 h2
+      rw [hrun]; rw [hverb] at h1 h2
+      exact (C03_matcher_other _ comps verb).1 h1 h2
+    · intro comps; rw [hrun, hverb]; exact (C03_matcher_other _ comps []).2.1
+    · intro ι i m p b
+      have hfun : matchAndEscape P = matchTmpl (C20.toC03 g) := by funext c v; exact hrun c v
+      have hroute : [(⟨i, m, P.verb, matchAndEscape P⟩ : Route ι)] = routesOf [(i, m, C20.toC03 g)] := by
+        simp [routesOf, mkR, hverb, hfun]
+      rw [hroute, C03_route_iff [(i, m, C20.toC03 g)] (by
+        intro e he; simp only [List.mem_singleton] at he; subst he; exact hwf hd) m p i b]
+      constructor
+      · rintro ⟨pre, t', post, htbl, hm, _⟩
+        cases pre with
+        | nil => simp only [List.nil_append, List.cons.injEq, Prod.mk.injEq] at htbl; rw [htbl.1.2.2]; exact hm
+        | cons x xs => simp at htbl
+      · intro hm
+        exact ⟨[], _, [], rfl, hm, by simp⟩
+
+/-! Non-vacuity, evaluated by the kernel through the real models: the template text `/v1/{name=shelves/*}:get`
+    (parser model ▸ Compile ▸ NewPattern) and the request path `/v1/shelves/a%2Fb:get`. -/
+section
+def exText : Bytes := [47, 118, 49, 47, 123, 110, 97, 109, 101, 61, 115, 104, 101, 108, 118, 101, 115, 47, 42, 125, 58, 103, 101, 116]
+
+example : (C20.gwParse exText).toOption.map C20.toC03 =
+    some ⟨[.plain (.lit [118, 49]), .var [110, 97, 109, 101] [.lit [115, 104, 101, 108, 118, 101, 115], .star]], [103, 101, 116]⟩ := by
+  decide
+
+set_option maxRecDepth 100000 in
+example : (C20.buildPatternM exText).map (fun P =>
+      routePath [⟨0, [71], P.verb, matchAndEscape P⟩] [71]
+        [47, 118, 49, 47, 115, 104, 101, 108, 118, 101, 115, 47, 97, 37, 50, 70, 98, 58, 103, 101, 116]) =
+    some (.found 0 [([110, 97, 109, 101], [115, 104, 101, 108, 118, 101, 115, 47, 97, 47, 98])]) := by decide
+
+/-- two `**`: parsed (the gwbased parser has no such restriction) but no pattern -/
+example : (C20.gwParse [47, 42, 42, 47, 42, 42]).toOption.isSome = true ∧ C20.buildPatternM [47, 42, 42, 47, 42, 42] = none := by
+  decide
 end
